@@ -141,3 +141,15 @@ class TLCPool:
 
     def close(self) -> None:
         self.pool.shutdown(wait=True, cancel_futures=True)
+
+
+def expect_temporal_violation(res: TLCResult, prop: str, what: str) -> TLCResult:
+    """Model-level control for a liveness property.  (This TLC version words the message
+    'Temporal property <P> was violated', which harness/tlc.py files under `error`.)"""
+    msg = res.error or ""
+    if "TemporalProperty" in res.violated or prop in res.violated:
+        return res
+    if "Temporal propert" in msg and "violated" in msg and (prop in msg or "properties" in msg):
+        return res
+    raise MachineryError(f"expected temporal property {prop} to be violated in {what}; got "
+                         f"violated={res.violated} error={res.error}\n{res.out[-1500:]}")
